@@ -136,15 +136,15 @@ def rule_core(repo, rep):
       else:
         rep.derived(Rg, sup + '.fit', s)
     # default n_constraints = 20 * n_classes ** 2
-    if 'n_constraints' in hyper_map:
-      _default_n_constraints(repo, rep, sup, cs, fs, gname)
+    _default_n_constraints(repo, rep, sup, cs, fs, gname,
+                           'n_constraints' in hyper_map)
 
 
 class _Reached(Exception):
   pass
 
 
-def _default_n_constraints(repo, rep, sup, cs, fs, gname):
+def _default_n_constraints(repo, rep, sup, cs, fs, gname, check_n=True):
   """interpret <sup>.fit up to the generator call for n_constraints in
   {None, 7} and 2, 3, 5 classes; the argument received by the generator is
   7, resp. 20 * classes ** 2 (any spelling, helper or inline)"""
@@ -153,8 +153,9 @@ def _default_n_constraints(repo, rep, sup, cs, fs, gname):
   Rd = 'R-INTERP:default-n-constraints'
   rep.rule(Rd, 'the supervised fit, interpreted up to its call of the '
            'constraint generator with n_constraints in {None, 7} and 2, 3, '
-           '5 distinct labels, hands the generator 7, resp. 20 * (number '
-           'of classes) ** 2')
+           '5 distinct labels, builds Constraints from the validated labels '
+           'themselves and (where n_constraints exists) hands the generator '
+           '7, resp. 20 * (number of classes) ** 2')
   init = repo.resolve_method(cs, '__init__')
   defaults = {}
   if init is not None:
@@ -169,6 +170,7 @@ def _default_n_constraints(repo, rep, sup, cs, fs, gname):
   class W(World):
     def __init__(self, nc, classes):
       self.nc, self.classes, self.got = nc, classes, None
+      self.labels_arg = S('y')
 
     def attr(self, it, v, attr, node):
       if v == S('self'):
@@ -184,6 +186,12 @@ def _default_n_constraints(repo, rep, sup, cs, fs, gname):
       return NotImplemented
 
     def call(self, it, d, recv, args, kwargs, node):
+      if d == 'isinstance' and len(args) == 2 and isinstance(args[1], Lib):
+        t = {'int': int, 'float': float, 'str': str}.get(args[1].dotted)
+        if t is not None and not isinstance(args[0], S):
+          return isinstance(args[0], t) and not isinstance(args[0], bool)
+      if d == 'type' and len(args) == 1:
+        return S('type')
       if d == 'len' and args and args[0] == S('uniq'):
         return self.classes
       if d == 'len' and args and args[0] in (S('y'), S('X')):
@@ -196,11 +204,17 @@ def _default_n_constraints(repo, rep, sup, cs, fs, gname):
           raise _Reached()
         if recv == S('self') and d == '._prepare_inputs':
           return (S('X'), S('y'))
+        if recv == S('self') and d.startswith('._initialize_basis'):
+          return (S('basis'), S('n_basis'))
         return NotImplemented
       if d.endswith('.Constraints') and d.startswith('metric_learn'):
+        self.labels_arg = args[0] if args else kwargs.get('partial_labels')
         return S('cons')
       if d == 'numpy.unique' and args and args[0] == S('y') and not kwargs:
         return S('uniq')
+      if d == 'numpy.unique' and args and args[0] == S('y') and \
+              set(kwargs) == {'return_inverse'}:
+        return (S('uniq'), S('y-reencoded'))
       if d == 'numpy.unique' and args and args[0] == S('y') and \
               set(kwargs) == {'return_counts'}:
         from ..minterp import Arr
@@ -228,7 +242,11 @@ def _default_n_constraints(repo, rep, sup, cs, fs, gname):
         unk = unk or str(u)
         continue
       want = 7 if nc is not None else 20 * classes ** 2
-      if w.got != want:
+      if w.labels_arg != S('y'):
+        bad = bad or 'Constraints receives %r instead of the validated ' \
+            'labels: re-encoded labels lose the meaning of negative ' \
+            '(unknown) values' % (w.labels_arg,)
+      if check_n and w.got != want:
         bad = bad or 'with n_constraints=%r and %d classes the generator ' \
             'receives %r, documented %r' % (nc, classes, w.got, want)
   if bad:
